@@ -142,8 +142,12 @@ def _tree_case(args):
             eq1, eq2 = (cp == tree), (tree == cp)
         except Exception as e:   # noqa
             eq1 = eq2 = 'raises:' + type(e).__name__
+        try:
+            refl = (tree == tree) is True
+        except Exception as e:   # noqa  (code under test: an original damaged through a shared object may not even compare)
+            refl = False
         f = {'how': how, 'shared': len(shared), 'shared_paths': ['/'.join(str(p) for p in x) for x in sh],
-             'equal': eq1 is True and eq2 is True, 'symmetric': eq1 == eq2, 'reflexive': (tree == tree) is True,
+             'equal': eq1 is True and eq2 is True, 'symmetric': eq1 == eq2, 'reflexive': refl,
              'same_print': safe_str(cp) == safe_str(tree), 'same_projection': jdump(proj(cp)) == jdump(proj(tree))}
         n, problems = mutate_all(tree, lambda t=tree, g=fn: g(t), how)
         f['mutations'] = n
@@ -197,6 +201,67 @@ def _plan_case(args):
     return out
 
 
+CROSS_SQL = ['select * from int1.t1 as t join mindsdb.pred as m', 'select t.a, m.y from int1.t1 as t join mindsdb.pred as m where t.a > 1',
+             'select * from int1.t1 as t join mindsdb.pred as m where t.ts > latest', 'select * from mindsdb.pred where a = 1',
+             'select * from int1.t1 as t join int2.t2 as u on t.a = u.a', 'select * from int1.t1 as t join mindsdb.pred as m limit 3',
+             'select * from int1.t1 where a in (select a from int2.t2)', 'select a from int1.t1 union select a from int2.t2']
+
+
+def _cross_case(sql):
+    """The same query planned under catalogs that differ in what `pred` is (ordinary model / time-series model) and in how
+    the catalog is written; all steps and plans compared pairwise, both ways."""
+    from mindsdb_sql import parse_sql
+    from mindsdb_sql.planner import plan_query
+    cats = []
+    for ts in (False, True):
+        pm = {'name': 'pred', 'integration_name': 'mindsdb'}
+        if ts:
+            pm.update({'timeseries': True, 'window': 3, 'order_by_column': 'ts', 'group_by_columns': ['g'], 'horizon': 1})
+        cats.append(dict(integrations=['int1', 'int2'], default_namespace='mindsdb', predictor_metadata=[pm]))
+        cats.append(dict(integrations=[{'name': 'int1', 'type': 'data'}, {'name': 'int2', 'type': 'data'}], default_namespace='mindsdb',
+                         predictor_metadata=[dict(pm)]))
+    objs = []
+    for kw in cats:
+        try:
+            p = plan_query(parse_sql(sql, 'mindsdb'), **kw)
+        except Exception:   # noqa
+            continue
+        objs.append(p)
+        objs += list(p.steps)
+    projs = [jdump(proj(o)) for o in objs]
+    out = []
+    eqm = {}
+    for i, a in enumerate(objs):
+        for j, b in enumerate(objs):
+            if j < i:
+                continue
+            rec = {'kind': 'pair', 'raises': 0, 'eq': 0, 'eq_rev': 0, 'same_projection': int(projs[i] == projs[j]), 'trans': 1,
+                   'a': type(a).__name__, 'b': type(b).__name__, 'sql': sql}
+            try:
+                rec['eq'] = int((a == b) is True)
+                rec['eq_rev'] = int((b == a) is True)
+            except Exception as e:   # noqa
+                rec['raises'] = 1
+            eqm[(i, j)] = eqm[(j, i)] = rec['eq'] and rec['eq_rev']
+            out.append(rec)
+    # transitivity over the collected objects
+    n = len(objs)
+    bad = None
+    for i in range(n):
+        for j in range(n):
+            if i != j and eqm.get((i, j)):
+                for k in range(n):
+                    if k not in (i, j) and eqm.get((j, k)) and not eqm.get((i, k)):
+                        bad = (i, j, k)
+    if bad:
+        out.append({'kind': 'pair', 'raises': 0, 'eq': 1, 'eq_rev': 1, 'same_projection': 1, 'trans': 0,
+                    'a': type(objs[bad[0]]).__name__, 'b': type(objs[bad[2]]).__name__, 'sql': sql})
+    # keep the interesting pairs only (different objects that are equal, or same projections that are unequal) plus a sample
+    keep = [r for r in out if r['raises'] or r['eq'] != r['eq_rev'] or (r['eq'] and not r['same_projection']) or
+            (r['same_projection'] and not r['eq']) or not r['trans']]
+    return keep + out[:40], len(out)
+
+
 def run(ctx):
     thorough = ctx.tier == 'thorough'
     rng = random.Random(ctx.seed + 18)
@@ -240,6 +305,14 @@ def run(ctx):
         o['deterministic'] = int(bool(f.get('same_projection')))
         obs.append(o)
         meta.append(('plan', p, f))
+    gen2 = [s_ for s_ in gen[:(300 if thorough else 40)]]
+    n_pairs = 0
+    for recs, n_ in pmap(_cross_case, CROSS_SQL + gen2, chunksize=4):
+        n_pairs += n_
+        for r_ in recs:
+            obs.append({k: v for k, v in r_.items() if k not in ('a', 'b', 'sql')})
+            meta.append(('pair', {'sql': r_['sql']}, r_))
+    ctx.cov['cross_catalog_pairs_compared'] = n_pairs
     path = ctx.work / 'heapobs.json'
     dump_json(path, obs)
     tr = ctx.tlc('HeapTrace', env={'VERIF_TRACES': path}, name='heaptrace', timeout=3000)
@@ -266,6 +339,9 @@ def run(ctx):
                     where = ':' + (paths[0].split('/')[-1] if paths and paths[0] else 'root')
                 ctx.violation('%s:%s%s' % (flag, f['how'], where), 'tree copy: %s' % flag,
                               {'sql': case['sql'], 'dialect': case['dialect'], 'detail': det}, pin=(case['sql'], flag))
+            elif kind == 'pair':
+                ctx.violation('%s:%s-vs-%s' % (flag, f['a'], f['b']), 'objects from plans of one query under different catalogs: %s' % flag,
+                              {'sql': case['sql'], 'classes': [f['a'], f['b']], 'facts': f})
             else:
                 ctx.violation('%s' % flag, 'plan / step / result equality: %s' % flag,
                               {'sql': case['sql'], 'facts': f}, pin=(case['sql'], flag))
